@@ -58,6 +58,10 @@ type C19Sc struct {
 	// CorePanic (batch-item chain): the operation handler panics on every execution. The executor turns the panic into
 	// a failed item, and that failed item is the result the innermost stage receives from its continuation
 	CorePanic bool `json:"core_panic,omitempty"`
+	// CoreCritical (server drivers): the request item carries a message extension marked critical. The core refuses
+	// such an item (a failed item, no operation handler), and that refusal is what the innermost stage receives from
+	// its continuation, every time it calls it: an optional element of the item does not take the chain away
+	CoreCritical bool `json:"core_critical,omitempty"`
 	// Option (server drivers): the Batch Error Continuation Option in the header of the (single-item) requests:
 	// 0 unset, 1 Continue, 2 Stop. With one item there is nothing to stop or continue: the chain runs the same
 	Option int `json:"option,omitempty"`
@@ -111,6 +115,7 @@ func genC19(g *simrt.Tape, tier string) any {
 	}
 	sc.Late = sc.Cut > 0 && sc.Driver != "client" && g.Draw(2) == 0
 	sc.CorePanic = sc.Driver == "server-item" && g.Draw(6) == 0
+	sc.CoreCritical = sc.Driver != "client" && !sc.CorePanic && g.Draw(6) == 0
 	if sc.Driver != "client" {
 		sc.Option = g.Draw(3)
 	}
@@ -186,6 +191,7 @@ func c19Floor(tier string) []*C19Sc {
 			if d == "server-item" && l <= 2 {
 				out = append(out, &C19Sc{Driver: d, Stages: append([]StageSc{}, prefix...), Requests: 1, CorePanic: true})
 				out = append(out, &C19Sc{Driver: d, Stages: append([]StageSc{}, prefix...), Requests: 1, CorePanic: true, Option: 2})
+				out = append(out, &C19Sc{Driver: d, Stages: append([]StageSc{}, prefix...), Requests: 1, CoreCritical: true, Option: l % 3})
 				out = append(out, &C19Sc{Driver: d, Stages: append([]StageSc{}, prefix...), Requests: 2, Option: 1 + l%2})
 			}
 			if l == maxLen {
@@ -224,6 +230,9 @@ type chainModel struct {
 	echoCCV bool
 	// panicIn: when not empty the core panics; the value is the request name the panic message mentions
 	panicIn string
+	// critical: the core refuses the item (critical message extension)
+	critical  bool
+	itemChain bool
 }
 
 // markDone tells whether a context with this marker is cancelled: "!" marks a cancellation, "+" a detachment.
@@ -249,6 +258,14 @@ func handDown(st StageSc, mark string, i, k int) string {
 func (m *chainModel) run(i int, ctxMark, msgMark string) (string, bool) {
 	if i == len(m.stages) {
 		m.trace = append(m.trace, fmt.Sprintf("core ctx=%s msg=%s", ctxMark, msgMark))
+		if m.critical && m.itemChain {
+			// (inside the batch-item chain the refusal travels as an error next to the empty item; the executor
+			// merges the two once the chain has returned)
+			return "other+critical-extension", true
+		}
+		if m.critical {
+			return "failed:critical-extension", false
+		}
 		if m.panicIn != "" {
 			return "failed:panic(string) in " + m.panicIn + msgMark, false // a failed item, not an error
 		}
@@ -310,13 +327,18 @@ func errPart(id string) string {
 
 // pairIdentity names what a continuation handed back.
 func pairIdentity(respID string, hasResp bool, err error) string {
-	switch {
-	case err == nil:
+	if err == nil {
 		return respID
-	case hasResp:
-		return respID + "+" + err.Error()
 	}
-	return err.Error()
+	msg := err.Error()
+	var ke kmipserver.Error
+	if errors.As(err, &ke) && ke.Reason == kmip.ResultReasonFeatureNotSupported {
+		msg = "critical-extension" // (the library's wording is its own business)
+	}
+	if hasResp {
+		return respID + "+" + msg
+	}
+	return msg
 }
 
 // ---- the real chains, instrumented stage programs
@@ -410,6 +432,9 @@ func respIdentity(resp *kmip.ResponseMessage) string {
 			}
 			return "core:" + mm
 		}
+		if bi.ResultStatus != kmip.ResultStatusSuccess && bi.ResultReason == kmip.ResultReasonFeatureNotSupported {
+			return "failed:critical-extension"
+		}
 		if bi.ResultStatus != kmip.ResultStatusSuccess {
 			return "failed:" + bi.ResultMessage
 		}
@@ -434,6 +459,9 @@ func itemIdentity(bi *kmip.ResponseBatchItem) string {
 	}
 	if strings.HasPrefix(bi.ResultMessage, "fab") {
 		return bi.ResultMessage
+	}
+	if bi.ResultStatus != kmip.ResultStatusSuccess && bi.ResultReason == kmip.ResultReasonFeatureNotSupported {
+		return "failed:critical-extension"
 	}
 	if bi.ResultStatus != kmip.ResultStatusSuccess {
 		// (a failed item may still carry the payload of the execution it came from: the failure is what counts)
@@ -622,7 +650,11 @@ func execC19(x *X, scAny any) {
 		if sc.CorePanic {
 			tok = "y1,ps"
 		}
-		return buildRequest(&ReqSc{Version: 4, Option: sc.Option, Items: []ItemSc{{Tok: tok, NoID: true}}}, fmt.Sprintf("q%d", j))
+		ext := ""
+		if sc.CoreCritical {
+			ext = "critical"
+		}
+		return buildRequest(&ReqSc{Version: 4, Option: sc.Option, Items: []ItemSc{{Tok: tok, NoID: true, Ext: ext}}}, fmt.Sprintf("q%d", j))
 	}
 	reqName := func(j int) string { return fmt.Sprintf("q%d.0", j) }
 
@@ -814,6 +846,8 @@ func execC19(x *X, scAny any) {
 		if sc.CorePanic {
 			m.panicIn = name
 		}
+		m.critical = sc.CoreCritical
+		m.itemChain = sc.Driver == "server-item"
 		m.echoCCV = sc.Driver == "server-msg"
 		wantRes, wantErr := m.run(0, "", "")
 		want := m.trace
@@ -847,6 +881,9 @@ func execC19(x *X, scAny any) {
 			}
 			if anyParallel {
 				wantCore = sortedCopy(wantCore)
+			}
+			if sc.CoreCritical {
+				wantCore = nil // (the core refuses the item before any operation handler: none may have run)
 			}
 			gotCore := cr.traces["__core__"+name]
 			if strings.Join(got, "\n") != strings.Join(wantStage, "\n") {
@@ -935,7 +972,7 @@ func init() {
 			"real": {"kmipclient.Client.Roundtrip chain driver", "kmipserver.BatchExecutor.HandleRequest chain driver", "kmipserver batch-item chain driver (executeItemWithMiddleware)", "BatchExecutor core, ttlv codec"},
 			"stub": {"middleware stages (generated programs)", "client transport: simnet + scripted echo server", "operation handler (scripted)"},
 		},
-		Assumptions: []string{"the client core cannot observe the context it is given; context hand-over is checked at every stage entry instead", "rewriter is semantics-preserving"},
+		Assumptions: []string{"the client core cannot observe the context it is given; context hand-over is checked at every stage entry instead", "inside the batch-item chain the core's refusal of an item with a critical extension travels as an (empty item, error) pair, merged into a failed item once the chain has returned (what the unchanged library does; a tree that merged earlier would need the model adjusted)", "rewriter is semantics-preserving"},
 	})
 }
 
